@@ -47,6 +47,10 @@ class PurityHooks(Hooks):
         pending, self.pending_fresh = self.pending_fresh, None
         fresh.judge(it, i, ev, out, pending, 'C10.fresh', {'fn': ev['fn']})
 
+    def on_drop(self, it, ids):
+        for k in ids:
+            self.snap.pop(k, None)
+
     def on_dirty(self, it, tid):
         # the caller wrote into an array it owns: everything that views that array legitimately shows the new content
         self.snap = self._snapshot(it)
@@ -638,6 +642,103 @@ class PurityScenario(Scenario):
                         out.append(E(fn_, a_, t={'fresh': True}))
             return out
 
+        def setters():
+            """Every settable attribute of every class: an object that has been used, then updated by its owner through the documented
+            attribute, answers like a fresh object in the same public state (C10.fresh builds that fresh object in a pristine process)."""
+            out = []
+            kind = rng.choice(['tilt', 'disp', 'pupil', 'spectrum', 'material', 'wavefront'])
+            o = nid('o')
+            if kind == 'tilt':
+                out.append(E('Tilt', None, {'x': 1e-6, 'y': -2e-6}, id=o))
+                out.append(E('Tilt.shift', ['@' + o], {'xs': 0.0, 'ys': 0.0, 'z': 1.0}))
+                out.append(E('setattr', ['@' + o, rng.choice(['x', 'y']), rng.choice([3e-6, 0.0, -1e-6])], inplace=['@' + o]))
+                out.append(E('Tilt.shift', ['@' + o], {'xs': 0.0, 'ys': 1e-6, 'z': 1.0}, t={'fresh': True}))
+                w1 = nid('w')
+                out.append(E('Plane.multiply', ['@P2', '@W0'], id=w1))
+                w2 = nid('w')
+                out.append(E('Plane.multiply', ['@' + o, '@' + w1], id=w2))
+                out.append(E('propagate_dft', ['@' + w2], {'pixelscale': ph['du'], 'shape': [7, 8], 'oversample': 1}, t={'fresh': True}))
+            elif kind == 'disp':
+                tr = [rng.choice([2.0, 50.0]), 0.3, 0.0] if rng.random() < 0.6 else [0.5, 0.0]
+                out.append(E('DispersiveTilt', None, {'trace': tr, 'dispersion': [1e-3, ph['wl'] - 3e-8]}, id=o))
+                out.append(E('Tilt.shift', ['@' + o], {'wavelength': ph['wl']}))
+                if rng.random() < 0.5:
+                    out.append(E('setattr', ['@' + o, 'trace', {'$nd': [c_ * (0.5 if j_ < len(tr) - 1 else 1) for j_, c_ in enumerate(tr)]}], inplace=['@' + o]))
+                else:
+                    out.append(E('setattr', ['@' + o, 'dispersion', {'$nd': [2e-3, ph['wl'] - 1e-8]}], inplace=['@' + o]))
+                out.append(E('Tilt.shift', ['@' + o], {'wavelength': ph['wl']}, t={'fresh': True}))
+                out.append(E('Tilt.shift', ['@' + o], {'wavelength': ph['wl'] + 4e-8}, t={'fresh': True}))
+            elif kind == 'pupil':
+                out.append(E('Pupil', None, {'amplitude': '@A', 'opd': '@O', 'mask': '@MB', 'pixelscale': ph['dx'], 'focal_length': ph['f']}, id=o))
+                out.append(E('Plane.multiply', ['@' + o, '@W0']))
+                out.append(E('setattr', ['@' + o, 'focal_length', ph['f'] * rng.choice([2.0, 0.5])], inplace=['@' + o]))
+                w1 = nid('w')
+                out.append(E('Plane.multiply', ['@' + o, '@W0'], id=w1, t={'fresh': True}))
+                out.append(E('propagate_dft', ['@' + w1], {'pixelscale': ph['du'], 'shape': [6, 6], 'oversample': 1}, t={'fresh': True}))
+            elif kind == 'spectrum':
+                out.append(E('Spectrum.copy', ['@' + rng.choice(['SP1', 'SP2'])], id=o))
+                out.append(E('Spectrum.integrate', ['@' + o]))
+                out.append(E('Spectrum.sample', ['@' + o, [500.0, 512.0]], {'waveunit': 'nm'}))
+                out.append(E('setattr', ['@' + o, 'value', {'$nd': [round(rng.uniform(0.1, 1.0), 3) for _ in range(9 if rng.random() < 0.5 else 6)]}],
+                             inplace=['@' + o]))
+                for fn_, a_, k_ in (('Spectrum.integrate', ['@' + o], None), ('Spectrum.sample', ['@' + o, [500.0, 512.0]], {'waveunit': 'nm'}),
+                                    ('s*', ['@' + o, '@SP1'], None), ('Spectrum.ends', ['@' + o], None),
+                                    ('Spectrum.bin', ['@' + o, [480.0, 520.0, 560.0]], {'waveunit': 'nm'})):
+                    out.append(E(fn_, a_, k_, t={'fresh': True}))
+            elif kind == 'material':
+                out.append(E('Material', None, {'transmission': '@SP1', 'emission': 0.02, 'contam': 0.8}, id=o))
+                out.append(E('path_transmission', [['@' + o, 0.9]]))
+                out.append(E('setattr', ['@' + o, rng.choice(['contam', 'emission', 'transmission']), rng.choice([0.5, 0.95])], inplace=['@' + o]))
+                out.append(E('path_transmission', [['@' + o, 0.9]], t={'fresh': True}))
+                out.append(E('path_emission', [['@' + o]], {'emission': 0.0}, t={'fresh': True}))
+            else:
+                w1 = nid('w')
+                out.append(E('Plane.multiply', ['@P0', '@W0'], id=w1))
+                out.append(E('propagate_dft', ['@' + w1], {'pixelscale': ph['du'], 'shape': [6, 7], 'oversample': 1}))
+                out.append(E('setattr', ['@' + w1, 'focal_length', ph['f'] * 2], inplace=['@' + w1]))
+                out.append(E('propagate_dft', ['@' + w1], {'pixelscale': ph['du'], 'shape': [6, 7], 'oversample': 1}, t={'fresh': True}))
+            return out
+
+        def ephemeral():
+            """Short-lived caller arrays: use one, let go of it (and of what was computed from it), allocate another of the same shape
+            with other content and use that -- its memory address and id() may well be the first one's."""
+            out = []
+            which = rng.choice(['mask', 'frame', 'field', 'opd'])
+            first = None
+            for rep in range(rng.randint(2, 4)):
+                a = nid('e')
+                if which == 'mask':
+                    out.append({'c': c, 'fn': 'array', 'id': a, 'recipe': {'kind': 'rect', 'shape': [8, 8], 'half': [1, 2], 'dr': rep - 1, 'dc': (rep * 2) % 3 - 1,
+                                                                         'degenerate_ok': True}})
+                    w1 = nid('w')
+                    out.append(E('Plane.multiply', ['@P2', '@W0'], id=w1))
+                    r = E('propagate_dft', ['@' + w1], {'pixelscale': ph['du'], 'shape': [4, 4], 'oversample': 2, 'mask': '@' + a}, t={'fresh': True})
+                    extra = [w1]
+                elif which == 'frame':
+                    out.append({'c': c, 'fn': 'array', 'id': a, 'recipe': {'kind': 'uniform', 'shape': [6, 5], 'lo': 1500.0 * (rep + 1), 'hi': 4000.0 * (rep + 1), 'seed': sd()}})
+                    r = E(rng.choice(['shot_noise', 'read_noise', 'pixel', 'adc']), ['@' + a], None, t={'fresh': True})
+                    if r['fn'] == 'shot_noise':
+                        r['k'] = {'method': 'gaussian', 'seed': 3}
+                    elif r['fn'] == 'read_noise':
+                        r['a'].append(2.0)
+                        r['k'] = {'seed': 3}
+                    elif r['fn'] == 'adc':
+                        r['a'].append(0.02)
+                    extra = []
+                elif which == 'field':
+                    out.append({'c': c, 'fn': 'array', 'id': a, 'recipe': {'kind': 'complex', 'shape': [5, 6], 'seed': sd()}})
+                    r = E('dft2', ['@' + a, 0.1], {'shape': [4, 5]}, t={'fresh': True})
+                    extra = []
+                else:
+                    out.append({'c': c, 'fn': 'array', 'id': a, 'recipe': {'kind': 'normal', 'shape': 'S0', 'sigma': 3e-8 * (rep + 1), 'seed': sd()}})
+                    pp = nid('p')
+                    out.append(E('Pupil', None, {'amplitude': '@A', 'opd': '@' + a, 'mask': '@MB', 'pixelscale': ph['dx'], 'focal_length': ph['f']}, id=pp))
+                    r = E('Plane.multiply', ['@' + pp, '@W0'], t={'fresh': True})
+                    extra = [pp]
+                out.append(r)
+                out.append({'env': 'drop', 'c': c, 'targets': ['@' + x for x in [a, r['id']] + extra]})
+            return out
+
         def refusals():
             """Calls that are refused (or may be, depending on the implementation): whatever the outcome, every shared object must be
             byte-identical afterwards, the outcome must be the same solo / interleaved / in a pristine process, and later calls unaffected."""
@@ -864,7 +965,7 @@ class PurityScenario(Scenario):
             return picks
 
         table = [(optics, 3), (fft, 2), (fit, 2), (fit_inplace, 1), (path, 1.5), (refused_fit, 0.7), (used_vs_fresh, 1.2), (dft, 2), (zern, 1), (util, 1.5),
-                 (detector, 3), (spectra, 3), (dispersive, 1.2), (derived_inplace, 1.5), (misc, 1.2), (refusals, 1.2), (attr_path, 1.2), (auto, 4)]
+                 (detector, 3), (spectra, 3), (dispersive, 1.2), (derived_inplace, 1.5), (misc, 1.2), (refusals, 1.2), (attr_path, 1.2), (auto, 4), (setters, 1.5), (ephemeral, 1.2)]
         return table
 
     # ---------------------------------------------------------------- generation
